@@ -31,7 +31,7 @@ theorem x0_reach (r : Routine) (k b : Nat) (hs : Slice r k (ladX0Code b)) (lb : 
     (hrk : rk.length = 32) (hrkb : ∀ x ∈ rk, x < 2 ^ 32) (hjb : jb.length = 16) (hjbb : ∀ x ∈ jb, x < 2 ^ 8) (hsb : ∀ x ∈ src, x < 2 ^ 8)
     (hsp : sp + src.length < 2 ^ 63) (hdb : dbase + dlen < 2 ^ 63) (hsl : src.length ≤ dlen) (htp : tp + 32 < 2 ^ 63)
     (toff h hf c y : Nat) (dc tc : List Nat) (s : State) (hhf : hf < 2 ^ 63) (hto : toff = 0 ∨ toff = 16)
-    (st : LadSt M2 dbase dlen tp sp toff (Wblk jb 0) h hf src.length 1 c y dc tc s) (hc : 16 * c ≤ src.length)
+    (st : LadSt M2 dbase dlen tp sp toff (Wblk jb 0) h hf src 1 c y dc tc s) (hc : 16 * c ≤ src.length)
     (hlen : src.length - 16 * c < 16) :
     ∃ s' N, N ≤ 900 ∧ Reach r k s (k + 650) s' N ∧
       LadEnd M2 dlen h (if src.length - 16 * c = 0 ∨ hf = 0 then y else gmulR h (y ^^^ rb128 (unlanes 8 (padTo16 (x0Out rk jb src c)))))
@@ -91,10 +91,12 @@ theorem x0_reach (r : Routine) (k b : Nat) (hs : Slice r k (ladX0Code b)) (lb : 
     obtain ⟨s2, N2, hN2, r2, m2, g26, g210, g29, k2⟩ := x0in_reach r (k + 2 + 2) _ _ _ _ _ sI
       (by rw [show k + 2 + 2 + 3 = k + 7 from by omega]; exact lb.i8) (by rw [show k + 2 + 2 + 11 = k + 15 from by omega]; exact lb.i4)
       (by rw [show k + 2 + 2 + 19 = k + 23 from by omega]; exact lb.i2) (by rw [show k + 2 + 2 + 27 = k + 31 from by omega]; exact lb.i1)
-      (by rw [show k + 2 + 2 + 35 = k + 39 from by omega]; exact lb.ie) (fun t => M2 dc t) tp (lm.m2.bufT dc st.hdc) src sp
-      (fun t ht => lm.src dc t st.hdc ht) hsb htp hsp n s1 tc (16 * c) toff hto pc1.lenG st.htc
+      (by rw [show k + 2 + 2 + 35 = k + 39 from by omega]; exact lb.ie) (fun t => M2 dc t) tp (lm.m2.bufT dc st.hdc) (src.drop (16 * c)) (sp + 16 * c)
+      (fun t ht => (st.srcOK t ht).toData hc) (fun x hx => hsb x (List.mem_of_mem_drop hx)) htp (by rw [List.length_drop]; omega)
+      n s1 tc 0 toff hto pc1.lenG st.htc
       (by rw [k1.mem]; exact st.mem) (by rw [k1.g 9 (by decide)]; exact hg9) hn1 (by omega)
-      (by rw [k1.g 10 (by decide)]; exact st.g10) (by rw [k1.g 6 (by decide)]; exact st.g6) (by omega)
+      (by rw [k1.g 10 (by decide), Nat.add_zero]; exact st.g10) (by rw [k1.g 6 (by decide)]; exact st.g6) (by rw [tail_len]; omega)
+    simp only [List.drop_zero, Nat.add_zero] at m2 g210
     have htk : (src.drop (16 * c)).take n = src.drop (16 * c) := List.take_of_length_le (by omega)
     rw [htk] at m2
     have hpl : (padTo16 (src.drop (16 * c))).length = 16 := padTo16_length _ (by omega)
